@@ -56,6 +56,8 @@ package mux
 //
 //@ fn restoreParams
 //@   requires ctx != nil && params != nil
+//@   ensures [C13] always-walks: called("types.Context.Range", 1)
+//@   atcall types.Context.Range [C13] the-context: arg0 == ctx
 //@   ensures [C13] restored: dom(ctx.params) == dom(params) && (forall x string :: ctx.params[x] == params[x])
 //@   ensures [C13] saved-kept: dom(params) == old(dom(params)) && (forall x string :: params[x] == old(params[x]))
 //@   ensures own-map: ctx.params == old(ctx.params) || fresh(ctx.params)
